@@ -17,6 +17,8 @@ mod format;
 mod package_type;
 mod parse;
 pub mod qualifiers;
+#[cfg(purl_verif)]
+mod verif_trace;
 
 /// A string that may be stored inline instead of on the heap.
 ///
